@@ -77,7 +77,7 @@ func (conn *Conn) close() {
 		if kept {
 			fid.kept = false
 		}
-		verifPoint("@close.visit", conn, fid, pending)
+		verifPoint("@close.visit", conn, fid, pending, kept)
 		fid.Unlock()
 		if kept {
 			fid.DecRef()
